@@ -373,7 +373,13 @@ func harnessC15() {
 	vAssert(ok, "C14: the client never speaks a protocol outside its allowed list (reattach)")
 	rc := c.ReattachConfig()
 	vAssert(rc != nil && rc.Addr == net.Addr(addr) && rc.Pid == 4242, "C15: ReattachConfig hands the same plugin on")
-	c.Kill()
+	killed := make(chan struct{})
+	go func() { c.Kill(); close(killed) }()
+	select {
+	case <-killed:
+	case <-time.After(60 * time.Second):
+		vAssert(false, "C15: Kill on the reattached client terminates that plugin (and returns) within a bounded time")
+	}
 	if test {
 		vCover("test-mode")
 		vAssert(thePlugin.alive, "C15: in test mode Kill leaves the serving process running")
